@@ -54,7 +54,7 @@ def Frame.isRoot : Frame → Bool
   | _ => true
 
 inductive CorePrim : Core → Core → Prop
-  | regCleanup (st : Core) (tag : Nat) (nested : Bool) : CorePrim st (regCleanup st tag nested)
+  | regCleanup (st : Core) (tag : Nat) (nested : Bool) (drops : Option Nat) : CorePrim st (regCleanup st tag nested drops)
   | newItem (st : Core) (v : Val) : CorePrim st (newItem st v).1
   | addItemHandle (st : Core) (k : Key) : CorePrim st { st with items := st.items ++ [k] }
   | newOwnerUnder (st : Core) (p : Option Nat) (paused : Bool) (hp : ∀ x, p = some x → x < st.owners.length) :
@@ -213,18 +213,18 @@ theorem recCount_cleared (cid : Nat) (r : OwnerRec) : recCount cid (clearedRec r
 theorem recCount_dead (cid : Nat) (r : OwnerRec) : recCount cid (deadRec r) = 0 := by
   simp [recCount, deadRec]
 
-theorem regCleanup_nextCid (st : Core) (tag : Nat) (nested : Bool) :
-    (regCleanup st tag nested).nextCid = st.nextCid + 1 := by
+theorem regCleanup_nextCid (st : Core) (tag : Nat) (nested : Bool) (drops : Option Nat) :
+    (regCleanup st tag nested drops).nextCid = st.nextCid + 1 := by
   unfold regCleanup; simp only; split
   · rw [modOwner_nextCid]
   · rfl
 
-theorem regCleanup_log (st : Core) (tag : Nat) (nested : Bool) : (regCleanup st tag nested).log = st.log := by
+theorem regCleanup_log (st : Core) (tag : Nat) (nested : Bool) (drops : Option Nat) : (regCleanup st tag nested drops).log = st.log := by
   unfold regCleanup; simp only; split
   · rw [modOwner_log]
   · rfl
 
-theorem regCleanup_arena (st : Core) (tag : Nat) (nested : Bool) : (regCleanup st tag nested).arena = st.arena := by
+theorem regCleanup_arena (st : Core) (tag : Nat) (nested : Bool) (drops : Option Nat) : (regCleanup st tag nested drops).arena = st.arena := by
   unfold regCleanup; simp only; split
   · rw [modOwner_arena]
   · rfl
@@ -233,8 +233,8 @@ theorem recCount_push (cid : Nat) (r : OwnerRec) (c : Cleanup) :
     recCount cid { r with cleanups := r.cleanups ++ [c] } = recCount cid r + (if c.cid = cid then 1 else 0) := by
   simp [recCount, List.count_append, List.count_singleton]
 
-theorem regCleanup_count (st : Core) (tag : Nat) (nested : Bool) (cid : Nat) :
-    ∃ d, sumW (recCount cid) (regCleanup st tag nested).owners = sumW (recCount cid) st.owners + d ∧
+theorem regCleanup_count (st : Core) (tag : Nat) (nested : Bool) (drops : Option Nat) (cid : Nat) :
+    ∃ d, sumW (recCount cid) (regCleanup st tag nested drops).owners = sumW (recCount cid) st.owners + d ∧
       d ≤ 1 ∧ (cid ≠ st.nextCid → d = 0) := by
   unfold regCleanup
   simp only
@@ -248,7 +248,7 @@ theorem regCleanup_count (st : Core) (tag : Nat) (nested : Bool) (cid : Nat) :
     | none => exact ⟨0, by simp⟩
     | some r =>
       simp only
-      have h1 := sumW_set (w := recCount cid) hr { r with cleanups := r.cleanups ++ [⟨st.nextCid, tag, nested⟩] }
+      have h1 := sumW_set (w := recCount cid) hr { r with cleanups := r.cleanups ++ [⟨st.nextCid, tag, nested, drops⟩] }
       rw [recCount_push] at h1
       simp only [Core.setOwner]
       simp only at h1
@@ -312,15 +312,18 @@ theorem CidInv.step (st : Core) (f : Frame) (fs : List Frame) (h : CidInv st (f 
   | run c ow late =>
     have hl : logCount cid (st.log ++ [Ev.c c.tag c.cid ow late]) = logCount cid st.log + frCount cid [Frame.run c ow late] := by
       rw [logCount_append]; simp [logCount, evCid, frCount, frameCid]
+    have hcf : frCount cid (closureFrames c) = 0 := by
+      unfold closureFrames; split <;> rfl
     by_cases hn : c.nested = true
-    · obtain ⟨d, h2, hd1, hd2⟩ := regCleanup_count (logEv st (Ev.c c.tag c.cid ow late)) (c.tag + 100) false cid
+    · obtain ⟨d, h2, hd1, hd2⟩ := regCleanup_count (logEv st (Ev.c c.tag c.cid ow late)) (c.tag + 100) false none cid
       simp only [stepFrame, hn, if_true, newStored_log, newStored_nextCid, newStored_count, regCleanup_log,
-        regCleanup_nextCid, logEv_log, logEv_nextCid, logEv_owners, List.nil_append] at h2 hd2 ⊢
+        regCleanup_nextCid, logEv_log, logEv_nextCid, logEv_owners, frCount_append, hcf] at h2 hd2 ⊢
       rw [hl, h2]
       by_cases hc : cid = st.nextCid
       · have := hb (by omega); omega
       · have := hd2 hc; omega
-    · simp only [stepFrame, hn, if_false, Bool.false_eq_true, logEv_log, logEv_nextCid, logEv_owners, List.nil_append]
+    · simp only [stepFrame, hn, if_false, Bool.false_eq_true, logEv_log, logEv_nextCid, logEv_owners,
+        frCount_append, hcf]
       rw [hl]; omega
   | remove k late =>
     have h0 : frCount cid [Frame.remove k late] = 0 := rfl
@@ -451,10 +454,10 @@ theorem logCount_snoc_notC (cid : Nat) (l : List Ev) (e : Ev) (h : e.isC = false
 /-- every primitive keeps every cleanup in exactly one place -/
 theorem CidInv.prim {a b : Core} (hp : CorePrim a b) (h : CidInv a []) : CidInv b [] := by
   cases hp with
-  | regCleanup tag nested =>
+  | regCleanup tag nested drops =>
     intro cid
     obtain ⟨h, hb⟩ := h cid
-    obtain ⟨d, h2, hd1, hd2⟩ := regCleanup_count a tag nested cid
+    obtain ⟨d, h2, hd1, hd2⟩ := regCleanup_count a tag nested drops cid
     unfold occ at h hb ⊢
     rw [regCleanup_log, regCleanup_nextCid, h2]
     simp only [frCount_nil] at h hb ⊢
@@ -547,7 +550,7 @@ theorem ArenaLe.frames (n : Nat) (st : Core) (fs : List Frame) : ArenaLe st.aren
 
 theorem ArenaLe.prim {a b : Core} (hp : CorePrim a b) : ArenaLe a.arena b.arena := by
   cases hp with
-  | regCleanup tag nested => rw [regCleanup_arena]; exact ArenaLe.refl _
+  | regCleanup tag nested drops => rw [regCleanup_arena]; exact ArenaLe.refl _
   | newItem v => rw [newItem_arena]; exact ArenaLe.insert _ _
   | addItemHandle k => exact ArenaLe.refl _
   | newOwnerUnder p paused hp => rw [newOwnerUnder_arena]; exact ArenaLe.refl _
